@@ -139,11 +139,11 @@ var insertCalls = map[string]bool{
 
 // frozen: loops whose early exit picks *which* error is reported (never whether one is).
 var mapOrderFrozen = map[string]string{
-	"yae.Expr.envCheck":        "callback asserts each binding against one reference (the run-time env); iteration order selects only which mismatch is worded in the error",
-	"ext.CompileToSql$lit":     "same check as envCheck over the run-time env; order selects only the error wording",
-	"conv.typeEnvOfMap":        "inserts into the env map; the first conversion error is returned, order selects only which one",
-	"conv.valEnvOfMap":         "inserts into the env map; the first conversion error is returned, order selects only which one",
-	"conv.valOfMap":            "every entry is compared with the first by types.Equals (an equivalence), entries go into a Go map; order selects the reference element and the error wording only",
+	"yae.Expr.envCheck":    "callback asserts each binding against one reference (the run-time env); iteration order selects only which mismatch is worded in the error",
+	"ext.CompileToSql$lit": "same check as envCheck over the run-time env; order selects only the error wording",
+	"conv.typeEnvOfMap":    "inserts into the env map; the first conversion error is returned, order selects only which one",
+	"conv.valEnvOfMap":     "inserts into the env map; the first conversion error is returned, order selects only which one",
+	"conv.valOfMap":        "every entry is compared with the first by types.Equals (an equivalence), entries go into a Go map; order selects the reference element and the error wording only",
 }
 
 // orderInsensitive reports whether executing stmts once per map entry in any order has the same effect.
@@ -941,10 +941,10 @@ func ruleIntGuard1(c *Ctx) {
 }
 
 var intConvFrozen = map[string]string{
-	"val.NumVal.Int":             "the conversion itself; every caller is guarded (INTGUARD-1)",
-	"fun.MOD_NUM_NUM$init":       "documented: % works on the int64 conversions of its operands",
-	"vm.switchThreading":         "OP_MOD_NUM_NUM twin of MOD_NUM_NUM (documented int64 semantics)",
-	"vm.OP_MOD_NUM_NUM_Handler":  "OP_MOD_NUM_NUM twin of MOD_NUM_NUM (documented int64 semantics)",
+	"val.NumVal.Int":            "the conversion itself; every caller is guarded (INTGUARD-1)",
+	"fun.MOD_NUM_NUM$init":      "documented: % works on the int64 conversions of its operands",
+	"vm.switchThreading":        "OP_MOD_NUM_NUM twin of MOD_NUM_NUM (documented int64 semantics)",
+	"vm.OP_MOD_NUM_NUM_Handler": "OP_MOD_NUM_NUM twin of MOD_NUM_NUM (documented int64 semantics)",
 }
 
 func ruleIntGuard2(c *Ctx) {
